@@ -10,7 +10,7 @@ missed = [m for m in rows if m['initially_missed']]
 own = sorted(os.path.basename(f) for f in glob.glob(V + '/mutants/*.diff'))
 out = '''## 10. Sensitivity: which check catches which seeded change
 
-Six waves of fourteen independent sub-agents (one per claimed property and wave) were each given
+Seven waves of fourteen independent sub-agents (one per claimed property and wave) were each given
 only the text of one property and a scratch git worktree of /repo, nothing from /verif, and asked
 for a small realistic change that breaks the property, still compiles, passes the repository's
 tests and needs something specific to manifest, with a demonstration. The second and third wave
@@ -19,7 +19,8 @@ kind of manifestation the earlier ones had not used (a boundary of a tuning cons
 survives between sessions or compilations, a transient fault, a count field, a release ordering),
 the fifth to parts of each property's code that no earlier change had touched, the sixth to
 breakages that need a history (a second session, call or compilation, a retry) or a particular
-interleaving.
+interleaving, the seventh away from the kinds of slip the earlier waves had favoured (stale
+buffers, batching indices, lost errors).
 All %d changes were
 confirmed by `bin/confirm-seeded` (patch applies to HEAD; `go build ./...`; `go test` of every
 package except the root passes; the demonstration fails with the change and passes without it) and
@@ -30,7 +31,9 @@ reversed).
 
 %d of the %d were **missed at first** (6 of 14 in the first wave, 3 of 14 in the second, 1 of 14
 in the third, 5 of 14 in the fourth, 3 of 14 in the fifth, 5 of 14 in the sixth - three of these
-five were strengthened from the sub-agent's report before the first run against them) and led to the extensions marked below; no oracle was loosened or tightened for
+five were strengthened from the sub-agent's report before the first run against them; 3 of 14 in
+the seventh, and one more of the seventh is caught by the check of the property it really breaks,
+C15, not by C16's) and led to the extensions marked below; no oracle was loosened or tightened for
 them - only workloads, fault kinds, scheduling points, the independence of the harness's
 expectations, (C04) one more monitor clause and (C11) one narrow clause for a new fault kind changed.
 
@@ -86,6 +89,9 @@ What the misses taught (kept as rules for the workloads):
   now run such second rounds in a share of their cases and judge them like the first.
 * Constants have a signedness that a cache key can forget (C05-f); a signature can be longer than
   any line buffer (C14-f); a check batch can share coefficients with the batch it checks (C15-f).
+
+* The transport contract has corners: a `Read` may return 0 bytes without error (C11-g). A base OT
+  may replace the caller's labels (C06-g). An array may have length zero (C14-g).
 
 Own mutants (`/verif/mutants/*.diff`; `revert-<commit>` is a `fix:` commit reversed): ''' + ', '.join(own) + '''.
 
